@@ -268,7 +268,7 @@ def r3a(a, tier):
 
 
 def r3b(a, tier):
-    return rule_left_call_table(a, 'C03.R3b')
+    return rule_left_call_table(a, 'C03.R3b', thorough=tier == 'thorough')
 
 
 RULES = [r_chain, r1_seed_loop, r2_flag_transfer, r3a, r3b]
